@@ -7,6 +7,7 @@ pub mod c04;
 pub mod c05;
 pub mod c08;
 pub mod c13;
+pub mod c14;
 pub mod c15;
 
 pub fn property(id: &str) -> Option<Property> {
@@ -18,6 +19,7 @@ pub fn property(id: &str) -> Option<Property> {
         "C05" => Some(c05::property()),
         "C08" => Some(c08::property()),
         "C13" => Some(c13::property()),
+        "C14" => Some(c14::property()),
         "C15" => Some(c15::property()),
         _ => None,
     }
